@@ -55,6 +55,8 @@ Agg(name, sq) ==
     [] name = "min"   -> [lo |-> SeqMin(sq), hi |-> SeqMin(sq)]
     [] name = "first" -> [lo |-> sq[1], hi |-> sq[1]]
     [] name = "mean"  -> [lo |-> (SumSeq(sq) \div Len(sq)) - 2, hi |-> (SumSeq(sq) \div Len(sq)) + 2]
+    [] name = "sum_shift" -> [lo |-> SumSeq(sq) - Len(sq) * (FX \div 4) - Len(sq), hi |-> SumSeq(sq) - Len(sq) * (FX \div 4) + Len(sq)]
+    [] name = "half_max"  -> [lo |-> (SeqMax(sq) \div 2) - 1, hi |-> (SeqMax(sq) \div 2) + 1]
 M2SLaw(e) ==
   LET r == Agg(e.ragg, e.inner.reward)  d == Agg(e.dagg, e.inner.discount) IN
   { <<"C15.aggregated_reward", Len(e.out.reward) = 1 /\ e.out.reward_shape = <<>> /\ r.lo <= e.out.reward[1] /\ e.out.reward[1] <= r.hi>>,
